@@ -1,12 +1,17 @@
 package main
 
 import (
+	"flag"
+
 	"verifharness/hx"
 	"verifharness/mods/farm"
 )
 
 func main() {
+	genesis := flag.Bool("genesis", false, "also generate `farm export` / `farm reimport` operations inside histories (C12)")
 	o := hx.ParseOpts()
 	env := hx.NewEnv()
-	farm.Run(env, farm.New(env), o)
+	rn := farm.New(env)
+	rn.Genesis = *genesis
+	farm.Run(env, rn, o)
 }
